@@ -1,18 +1,17 @@
 SPECIFICATION Spec
 CONSTANTS
-  Pool <- PoolI
-  Kids <- KidsI
-  TypeOf <- TypeI
-  HashOf <- HashI
+  Pool <- PoolX
+  Kids <- KidsX
+  TypeOf <- TypeX
+  HashOf <- HashX
   MaxEnc = 3
   Aux = TRUE
-  AllowUnregistered = TRUE
+  AllowUnregistered = FALSE
   PinDecoded = FALSE
-  SeenByHashOnly = FALSE
+  SeenByHashOnly = TRUE
   Emitting = FALSE
 CHECK_DEADLOCK FALSE
 INVARIANTS
   FIFO
   PosOk
-  SelfContained
   TabOk
